@@ -274,12 +274,11 @@ def compare(res, c, label):
     # which the real code differs from the Lean specification of the indexed chain (direct oracle;
     # S_ lines are evaluated from the chain named by S_CHAIN, independently of the model's state)
     bad = None
-    bad_spec = None
+    bad_spec = {}          # first mismatching specification line per observable class
     for i, (e, g) in enumerate(zip(c.expect, got)):
         if e != g:
             if c.kinds[i] == 'spec':
-                if bad_spec is None:
-                    bad_spec = i
+                bad_spec.setdefault(c.lines[i].split(' ', 1)[0], i)
             elif bad is None:
                 bad = i
     ops = [l for l, k in zip(c.lines, c.kinds) if k in ('cfg', 'adv', 'flush', 'backup', 'open')]
@@ -288,26 +287,38 @@ def compare(res, c, label):
     res.note_case(canon + str(len(c.lines)), nontrivial)
     res.bump('protocol_lines', len(c.lines))
     ops_script = [l for l, k in zip(c.lines, c.kinds) if k not in ('dump', 'dumpmem', 'q', 'spec')]
-    for d in c.direct_fail[:1]:
-        res.violations.append(dict(d, suite='index', where=label, script=ops_script[-60:]))
+    def tags_at(i):
+        # what had happened in the case when line i was produced: lets each property claim only the
+        # failures (and correspondence breaks) in the part of the code its theorems are about
+        t = set()
+        if 'backup' in c.kinds[:i + 1]:
+            t.add('after_backup')
+        if c.kinds[:i + 1].count('open') > 1:
+            t.add('after_restart')
+        cmd = c.lines[i].split(' ', 1)[0]
+        t.add({'S_UTXOS': 'utxo', 'S_LOOKUP': 'utxo', 'S_STATE': 'utxo', 'S_HIST': 'history',
+               'S_TXHASHES': 'files', 'S_HEADERS': 'files'}.get(cmd, 'op_' + c.kinds[i]))
+        return sorted(t)
 
     def case_for(i):
         kind = c.kinds[i]
-        return {'suite': 'index', 'where': f'{label} line {i} ({kind})',
+        return {'suite': 'index', 'where': f'{label} line {i} ({kind})', 'tags': tags_at(i),
                 'line': c.lines[i][:300], 'code': c.expect[i][:2000], 'model_or_spec': got[i][:2000],
                 'script': [l for l, k in zip(c.lines[:i + 1], c.kinds[:i + 1]) if k not in ('dump', 'dumpmem')][-40:]}
-    if bad_spec is not None:
-        case = case_for(bad_spec)
+    for d in c.direct_fail[:1]:
+        res.violations.append(dict(d, suite='index', where=label, tags=['window'], script=ops_script[-60:]))
+    for _cmd, i in sorted(bad_spec.items(), key=lambda kv: kv[1]):
+        case = case_for(i)
         case['clause'] = 'real index differs from the specification of the chain'
-        case['detail'] = (f'{c.lines[bad_spec][:120]}: code says {c.expect[bad_spec][:300]} '
-                          f'spec says {got[bad_spec][:300]}')
+        case['detail'] = (f'{c.lines[i][:120]}: code says {c.expect[i][:300]} '
+                          f'spec says {got[i][:300]}')
         res.violations.append(case)
     if bad is not None and len(res.disagreements) < 3:
         case = case_for(bad)
         case['grade'] = 'structural' if c.kinds[bad] in ('dump', 'dumpmem') else 'observable'
         case['model'] = got[bad][:2000]
         res.disagreements.append(case)
-    return bad is None and bad_spec is None and not c.direct_fail
+    return bad is None and not bad_spec and not c.direct_fail
 
 
 def run(tier, seed):
@@ -331,7 +342,7 @@ def run(tier, seed):
         ok = compare(res, c, f'case {i} (seed {seed})')
         # a broken correspondence alone does not end the run: keep searching for an input on which
         # the property itself fails (the failing-input search); stop once there are violations
-        if not ok and len(res.violations) >= 3:
+        if not ok and len(res.violations) >= 12:
             break
     need = ['history_only_flushes', 'full_flushes', 'reorgs', 'restarts', 'gen_same_block_spends',
             'gen_colliding_prefix_txs_placed', 'gen_op_return_before_activation',
